@@ -118,29 +118,46 @@ Theorem C03_rat_pow_no_panic : forall x e k, wfr e = true -> rat_pow x e <> Pani
 Proof. exact rat_pow_no_panic. Qed.
 Print Assumptions C03_rat_pow_no_panic.
 
-(* Flag monotonicity.  Full statement:
-     forall e v fl, uses_approx e = true -> feval e = Ok (v, fl) -> fl = false
-   ("any value computed from an approximate value stays marked").
-   REFUTED on the faithful model: Value::add returns self whenever
-   rhs.is_zero(), without consulting rhs.exact (unit.rs:205), so
-   1 + (approx. 0) is exact 1.  Replayed on the real code: `1 + (sqrt 2 -
-   sqrt 2)` and `1 + approx. 0` print `1` without marker. *)
-Theorem C03_flag_monotone_refuted :
-  exists e v, uses_approx e = true /\ feval e = Ok (v, true).
-Proof. exact flag_monotone_refuted_lemma. Qed.
-Print Assumptions C03_flag_monotone_refuted.
+(* FLAG MONOTONICITY (full strength, on the model of Value::add as repaired by
+   fend commit 198ba44): any value computed from an approximate value stays
+   marked -- in fact the flag is EXACTLY "no approximate operand occurs", and
+   the value is the exact value of the expression. *)
+Theorem C03_flag_monotone : forall e v fl,
+  uses_approx e = true -> feval e = Ok (v, fl) -> fl = false.
+Proof. exact flag_monotone_lemma. Qed.
+Print Assumptions C03_flag_monotone.
 
-Theorem C03_flag_monotone_except_known : forall e v fl,
-  known_C03_add_approx_zero e = false -> uses_approx e = true ->
-  feval e = Ok (v, fl) -> fl = false.
-Proof. exact flag_monotone_except_known_lemma. Qed.
-Print Assumptions C03_flag_monotone_except_known.
+Theorem C03_flag_exactly : forall e v fl,
+  feval e = Ok (v, fl) -> fl = negb (uses_approx e).
+Proof. exact flag_exactly_lemma. Qed.
+Print Assumptions C03_flag_exactly.
 
 (* and the marker is never raised without cause *)
 Theorem C03_flag_exact_without_approx : forall e v fl,
   uses_approx e = false -> feval e = Ok (v, fl) -> fl = true.
 Proof. exact flag_exact_when_no_approx_lemma. Qed.
 Print Assumptions C03_flag_exact_without_approx.
+
+Theorem C03_flag_value : forall e v fl,
+  feval e = Ok (v, fl) -> exists w, fvalue e = Some w /\ (v == w)%Q.
+Proof. exact flag_value_lemma. Qed.
+Print Assumptions C03_flag_value.
+
+(* Documentation of the defect that was found and repaired: before 198ba44
+   Value::add returned self whenever rhs.is_zero(), without consulting
+   rhs.exact ([feval_old]); on that model the statement is refuted
+   (`1 + approx. 0`, `1 + (sqrt 2 - sqrt 2)` printed `1` without marker) and
+   holds outside the classifier. *)
+Theorem C03_flag_monotone_old_refuted :
+  exists e v, uses_approx e = true /\ feval_old e = Ok (v, true).
+Proof. exact flag_monotone_old_refuted_lemma. Qed.
+Print Assumptions C03_flag_monotone_old_refuted.
+
+Theorem C03_flag_monotone_old_except_known : forall e v fl,
+  known_C03_add_approx_zero e = false -> uses_approx e = true ->
+  feval_old e = Ok (v, fl) -> fl = false.
+Proof. exact flag_monotone_old_except_known_lemma. Qed.
+Print Assumptions C03_flag_monotone_old_except_known.
 
 (* non-vacuity *)
 Example C03_dp_inhabited :
@@ -152,5 +169,7 @@ Proof. repeat split; vm_compute; reflexivity. Qed.
 Example C03_known_class_inhabited :
   known_C03_add_approx_zero (FAdd (FLit 1) (FApprox (FLit 0))) = true
   /\ known_C03_add_approx_zero (FAdd (FLit 1) (FApprox (FLit 2))) = false
-  /\ feval (FAdd (FLit 1) (FApprox (FLit 2))) = Ok (3%Q, false).
+  /\ feval (FAdd (FLit 1) (FApprox (FLit 2))) = Ok (3%Q, false)
+  /\ feval (FAdd (FLit 1) (FApprox (FLit 0))) = Ok (1%Q, false)
+  /\ feval_old (FAdd (FLit 1) (FApprox (FLit 0))) = Ok (1%Q, true).
 Proof. repeat split; vm_compute; reflexivity. Qed.
